@@ -121,10 +121,7 @@ def build_jobs():
     vendor_acl = {}
     for vendor, trees in sorted(per_vendor_trees.items()):
         text = _acl_text_for(rng, trees)
-        try:
-            vendor_acl[vendor] = (text, compile_acl_text(text, env.hw_stub(vendor).vendor))
-        except Exception:  # pylint: disable=broad-except
-            pass
+        vendor_acl[vendor] = text
     for s in corpus:
         for direction in ("fwd", "rev"):
             old, new = (s["old"], s["new"]) if direction == "fwd" else (s["new"], s["old"])
@@ -139,19 +136,15 @@ def build_jobs():
         if s["vendor"] in ("juniper", "ribbon", "nokia"):
             continue
         text = _acl_text_for(rng, [s["old"], s["new"]])
-        try:
-            acl = compile_acl_text(text, s["hw"].vendor)
-        except Exception:  # pylint: disable=broad-except
-            continue
         jobs.append({"kind": "acl", "name": "%s acl" % s["name"], "hw": s["hw"], "old": s["old"], "new": s["new"],
-                     "acl": acl})
+                     "acl": text})
         if s["vendor"] in vendor_acl:
             # one compiled ACL object shared by all samples of the vendor, both directions
             jobs.append({"kind": "acl-shared", "name": "%s vendor-acl rev" % s["name"], "hw": s["hw"], "old": s["new"],
-                         "new": s["old"], "acl": vendor_acl[s["vendor"]][1]})
+                         "new": s["old"], "acl": vendor_acl[s["vendor"]]})
             if rng.random() < 0.5:
                 jobs.append({"kind": "acl-shared", "name": "%s vendor-acl fwd" % s["name"], "hw": s["hw"], "old": s["old"],
-                             "new": s["new"], "acl": vendor_acl[s["vendor"]][1]})
+                             "new": s["new"], "acl": vendor_acl[s["vendor"]]})
     for k in range(18):
         vendor, model = SYN_VENDORS[k % len(SYN_VENDORS)]
         hw = HardwareView(model % k, None)
@@ -160,8 +153,8 @@ def build_jobs():
         rb = {"patching": compile_patching_text(text, vendor), "ordering": compile_ordering_text("", vendor),
               "deploying": compile_deploying_text("", vendor)}
         provider.register(hw, rb)
-        acl_text = "\n".join("%s ~\n    ~ %%global" % w for w in ["alpha", "beta", "gamma", "delta"])
-        acl = compile_acl_text(acl_text, vendor)
+        # the same vendor-neutral ACL text for every synthetic world: it gets compiled once per vendor
+        acl = "\n".join("%s ~\n    one ~\n    ~ %%global" % w for w in ["alpha", "beta", "gamma", "delta"])
         trees = [_syn_tree(rng, text) for _ in range(4)]
         for a in range(4):
             for b in range(4):
@@ -183,6 +176,10 @@ def compute(job):
     try:
         old, new, acl = job["old"], job["new"], job["acl"]
         if acl is not None:
+            # ACL texts are compiled where a worker compiles them -- inside the job; annet's own lru_cache makes the
+            # compiled object the one shared by every job with the same (text, vendor)
+            from annet.annlib.rbparser.acl import compile_acl_text
+            acl = compile_acl_text(acl, job["hw"].vendor)
             old = patching.apply_acl(old, acl)
             new = patching.apply_acl(new, acl, exclusive=False)
         diff, pt = api._diff_and_patch(d, old, new, acl, None, False)
